@@ -106,13 +106,17 @@ def post_go(ctx, cases, obs):
 
 
 def coverage_extra(ctx):
-    return {"binary_runs": _cmd_state.get("binary_runs", 0), "second_stage_go_runs": _state.get("second_stage_runs", 0), "format_combinations": 4}
+    return {"csv_lines": _cmd_state.get("csv_lines", 0), "csv_model_mismatches": _cmd_state.get("csv_model_mismatches", 0), "binary_runs": _cmd_state.get("binary_runs", 0), "second_stage_go_runs": _state.get("second_stage_runs", 0), "format_combinations": 4}
 
 
 def extra(ctx, obl, cases, obs):
     """the command through the built binary (cmd/*.go): binary = library entry point, and the option handling the command does itself"""
     n = 2 if ctx.tier == "quick" else 12
     _cmd_state["binary_runs"] = cmdlayer.updown_layer(ctx, 'topranking', n)
+    # the CSV text itself: encoding/csv = CsvModel.csv_parse, and lines written with csvField's model come back field by field
+    import csvlayer
+    cm.coq_make(["theories/Check_Csv.vo"], ctx.log)
+    _cmd_state.update(csvlayer.run(ctx, 300 if ctx.tier == "quick" else 5000))
 
 
 _cmd_state = {}
